@@ -145,9 +145,48 @@ def holdsWrite (f : File) (w : Writer) (o : File) : Bool :=
 /-- the GDEF writer only adds: nothing of the user's file moves, no feature block appears -/
 def holdsGdef (f : File) (o : File) : Bool := skel o == skel f && ftoks o == ftoks f
 
+/-! ### the GDEF writer: a hand-written part of `table GDEF` is not written a second time -/
+
+/-- the user's statements of the first `table GDEF` of the file (none: the file has no such table) -/
+def userGdef (f : File) : Option (List Item) :=
+  (f.findSome? (fun s => match s with
+    | .block _ .table tag _ body => if tag == "GDEF" then some body else none
+    | _ => none))
+
+def isCaretKind : GKind → Bool | .caretByIndex => true | .caretByPos => true | _ => false
+
+/-- `gen` = the types of the statements the GDEF writer added (read off the AST by the harness).  Glyph classes are
+generated (once) exactly when the user's table defines none and the font has categories; ligature carets are generated
+(one statement per glyph that has caret anchors) exactly when the user's table holds no ligature caret statement of
+either form; nothing else is generated. -/
+def holdsGdefGen (i : GdefIn) (f : File) (gen : List GKind) : Bool :=
+  let user := ((userGdef f).getD []).map (itemKind i.kinds)
+  gen.count .glyphClassDef == (if !user.contains .glyphClassDef && i.hasCats then 1 else 0) &&
+  gen.count .caretByPos == (if user.any isCaretKind then 0 else i.carets) &&
+  gen.all (fun k => k == .glyphClassDef || k == .caretByPos)
+
+/-- how many statements the GDEF writer has to add -/
+def specGdefCount (i : GdefIn) (f : File) : Nat :=
+  let user := ((userGdef f).getD []).map (itemKind i.kinds)
+  (if !user.contains .glyphClassDef && i.hasCats then 1 else 0) + (if user.any isCaretKind then 0 else i.carets)
+
+/-- where the generated statements are: inside the user's table if there is one, else in one new top-level statement
+at the end of the file; if nothing is generated the file is the same -/
+def holdsGdefPlace (f : File) (n : Nat) (o : File) : Bool :=
+  if n == 0 then o == f
+  else match userGdef f with
+    | some body =>
+      o.length == f.length &&
+      (match userGdef o with
+       | some body' => body'.take body.length == body && body'.length == body.length + n &&
+                       (body'.drop body.length).all (fun it => !notGen it)
+       | none => false)
+    | none => o.length == f.length + 1 && o.take f.length == f &&
+              (match o.getLast? with | some (.gen (.other _)) => true | _ => false)
+
 def holdsStep : Step → File → File → Bool
   | .writer w, f, o => holdsWrite f w o
-  | .gdef _ _ _, f, o => holdsGdef f o
+  | .gdef i, f, o => holdsGdef f o && holdsGdefPlace f (specGdefCount i f) o
 
 /-- a whole run: `outs` = the file after each writer -/
 def holdsRun : List Step → File → List File → Bool
